@@ -1,5 +1,5 @@
 use crate::annotation::Annotation;
-use crate::definition::{Definition, InternalRef};
+use crate::definition::{Definition, External, InternalRef};
 use crate::errors::{Error, Kind, Result};
 use crate::module::ModuleSet;
 use crate::spec::{
@@ -89,6 +89,8 @@ pub struct Context<'a> {
     mods: &'a ModuleSet,
     /// The explicit and implicit (e.g. recursive) references.
     refs: IndexMap<atom::Ident, Option<Value<'a>>>,
+    /// The declarations of the explicit references.
+    owners: HashMap<atom::Ident, External>,
     /// The stack of evaluation scopes.
     scopes: Vec<(ScopeId, Scope<'a>)>,
     /// The sequence of unique scope identifiers in the evaluation tree.
@@ -100,6 +102,7 @@ impl<'a> Context<'a> {
         Context {
             mods,
             refs: IndexMap::new(),
+            owners: HashMap::new(),
             scopes: Vec::new(),
             scope_id_seq: 0,
         }
@@ -444,6 +447,23 @@ pub fn eval_declaration<'a>(
                 // As declarations only appear at the global scope,
                 // The identifier does not depend on the scope of evaluation.
                 ident = ctx.node_identifier(decl.node(), false);
+            } else {
+                // Explicit references are global: the same identifier cannot be declared
+                // in two modules as both declarations would share a single component.
+                let owner = External::new(decl.node());
+                match ctx.owners.get(&ident) {
+                    Some(other) if *other != owner => {
+                        return Err(
+                            Error::new(Kind::InvalidIdentifier, "reference already exists")
+                                .with(&ident)
+                                .at(decl.identifier().node().span()),
+                        )
+                    }
+                    Some(_) => {}
+                    None => {
+                        ctx.owners.insert(ident.clone(), owner);
+                    }
+                }
             }
             // Make sure we evaluate the reference or recursive declaration only once.
             let expr = if !ctx.refs.contains_key(&ident) {
